@@ -63,6 +63,8 @@ class Instances(object):
         self.written = {}
         self.readers = {}
         self.roots = []
+        self.fs = {}            # fs histories: root, compiler with real components, mutations so far
+        self.is_fresh = False
 
     def close(self):
         for r in self.roots:
@@ -117,10 +119,13 @@ READ_TREE = {
 }
 
 
-def execute(inst, op, results):
+def execute(inst, op, results, world=None):
     """-> observable (JSON-able) of one operation on the given instances."""
     from pysmi import error
     kind = op['op']
+    if kind == 'fsc':
+        from verif.engines import fs_history
+        return fs_history.execute(inst, op, results, world)
     if kind == 'parse':
         p = inst.parser(op.get('dialect', 'smiV1Relaxed'))
         try:
@@ -203,7 +208,10 @@ def run_history(hist):
     """Execute a history; -> list of records, one per op:
        {'long': obs digest, 'fresh': obs digest, 'long_obs': obs (small), 'same': bool}"""
     core.patch_pysmi()
-    w = core.World(clock=core.EPOCH0)
+    hroot = None
+    if any(o['op'] == 'fsc' for o in hist['ops']):
+        hroot = core.new_root('hfs')
+    w = core.World(root=hroot, clock=core.EPOCH0, listing_seed=hist.get('listing_seed'), step_cap=400000)
     long_lived = Instances()
     recs = []
     long_results = []
@@ -217,20 +225,37 @@ def run_history(hist):
             else:
                 eff = dict(op)
             fresh = Instances()
+            fresh.is_fresh = True
             scratch = []
             if eff['op'] == 'index':
                 # index the results of an earlier compile operation (by position in the history)
                 src = eff.get('of', 0)
                 eff['_results'] = results_by_op.get(src)
             n0 = len(long_results)
-            a = execute(long_lived, eff, long_results)
+            a = execute(long_lived, eff, long_results, w)
             if len(long_results) > n0:
                 results_by_op[i] = long_results[-1]
-            b = execute(fresh, eff, scratch) if hist.get('fresh', True) else a
+            faulted = eff['op'] == 'fsc' and bool(eff.get('rate') or eff.get('faults'))
+            mark = (w.seq, len(w.log), dict(w.counts), w.tmpn, len(w.points))
+            b = execute(fresh, eff, scratch, w) if hist.get('fresh', True) and not faulted else a
             fresh.close()
             da, db = sha(a), sha(b)
             recs.append({'long': da, 'fresh': db, 'same': da == db, 'obs': _brief(a), 'fresh_obs': _brief(b), 'kind': eff['op'],
                          'failed': isinstance(a, list) and a and a[0] in ('EXC', 'FOREIGN')})
+            if eff['op'] == 'fsc':
+                from verif.engines import fs_history
+                recs[-1]['faults_fired'] = long_lived.fs.get('last_fired', 0)
+                recs[-1]['faulted'] = faulted
+                if not faulted and eff.get('options', {}).get('rebuild') and hist.get('fresh', True):
+                    # once faults have stopped, a rebuild yields what it yields on a tree that never saw a fault or an earlier call
+                    pz = Instances()
+                    n = fs_history.pristine(eff, w, long_lived.fs.get('last_muts', []), pz.parser(eff.get('dialect', 'smiV1Relaxed')))
+                    recs[-1]['pristine'] = [_brief(fs_history.comparable_after_rebuild(a)), _brief(fs_history.comparable_after_rebuild(n))]
+            # reference runs leave no trace in the world: seeded fault coins are indexed by event number, and a child
+            # interpreter that skips the reference runs must meet the same faults
+            w.seq, w.counts, w.tmpn = mark[0], mark[2], mark[3]
+            del w.log[mark[1]:]
+            del w.points[mark[4]:]
             if eff['op'] == 'compile' and eff.get('solo') and isinstance(b, dict) and hist.get('fresh', True):
                 # every module written by the joint call, compiled on its own by fresh objects: same sources, same options
                 solo = {}
@@ -247,6 +272,8 @@ def run_history(hist):
                 recs[-1]['solo'] = solo
             w.end_op()
     long_lived.close()
+    if hroot:
+        core.drop_root(hroot)
     return recs
 
 
